@@ -6,7 +6,7 @@ META = {
     "engine": "graph",
     "technique": 'TLA+ specs Braid/MC_Braid and Replica model-checked with TLC (exhaustive small constants + seeded simulation); every emitted DAG / delivery history replayed step by step into real ClientState replicas and the projected state compared (spec->impl conformance)',
     "text": 'Replica.tla makes heads, facts and hello head functions of the committed set (invariant Convergence); the replay runs every TLC-chosen delivery history (permutation, batching, flush and commit points, sync source) on real replicas and fails when two real replicas with equal committed sets differ in head ids, any fact query or hello head (key C01:diverge), plus two seeded histories per enumerated DAG.',
-    "note": 'Bounds: exhaustive DAGs <= 4 commands beyond init (5 in thorough), exhaustive histories for universe <= 3 / 5 steps / 2 replicas, seeded simulation to universe 8 / 16 steps / 3 replicas; STRETCH 14 (300 thorough). Audit policy stands in for real policies; memory-backed storage.',
+    "note": 'Bounds: exhaustive DAGs <= 4 commands beyond init (all DAGs with >= 3 heads replayed, others 1 in 6; N=5 in thorough), fact ops incl. quiet and rejected-in-braid commands at N=3/4, exhaustive histories for universe <= 3 / 5 steps / 2 replicas (two-command actions, forged merges), exhaustive poison positions (22 300 behaviours), C10 first-contact shapes, seeded simulation to universe 8 / 16 steps / 3 replicas; harness-parameterised families ladder (<= 900 rungs, 2 500 thorough), fan (<= 600 forks), star (<= 130 heads); STRETCH 14 (24/60 for C11, 300 thorough). Audit policy stands in for real policies; memory-backed storage; RuntimeBuffers shared by all replayed replicas; no storage fault injection.',
 }
 
 
